@@ -398,7 +398,7 @@ var c18Prefixes = []string{"/api/loc/", "/loc/", "/v1.0/loc/", "/2/api/loc/"}
 
 // ---- the request language ---------------------------------------------------------------
 
-func c18Requests() []c18req {
+func c18Requests(tier string) []c18req {
 	P := func(kv ...interface{}) map[string]interface{} {
 		m := map[string]interface{}{}
 		for i := 0; i+1 < len(kv); i += 2 {
@@ -412,6 +412,13 @@ func c18Requests() []c18req {
 	rules := []interface{}{lib.JM(`{"when":{"pattern":{"e":"?e"}},"action":{"code":"'x'"}}`), lib.JM(`{"when":{"pattern":{"e":"a b&c"}},"action":{"code":"'a&b=c d+%41'"}}`), lib.JM(`{"when":{"pattern":{"e":"?e"}}}`), lib.JM(`{"when":5}`)}
 	events := []interface{}{lib.JM(`{"e":"1"}`), lib.JM(`{"e":"a b&c"}`), lib.JM(`{"z":"none"}`)}
 	queries := []interface{}{lib.JM(`{"pattern":{"k":"?x"}}`), lib.JM(`{"and":[{"pattern":{"k":"?x"}},{"code":"x == 'v'"}]}`), lib.JM(`{"bogus":1}`)}
+	if tier == "thorough" {
+		ids = append(ids, "a/b", "x?y#h", " lead", "tr ", "日本", `a\b`, "<t>", "'q'", "a=b", "50%", "tab\there")
+		facts = append(facts, lib.JM(`{"a":{"b":{"c":["x",{"d":null}]}}}`), lib.JM(`{"k":"日本 & <t> 'q' \\ /"}`), lib.JM(`{"k":1e3,"j":-0.5,"t":true,"n":null}`), lib.JM(`{"":"empty key","k ":" v"}`))
+		patterns = append(patterns, lib.JM(`{"k":["1","?z"]}`), lib.JM(`{"a":{"b":{"c":"?c"}}}`), lib.JM(`{}`))
+		events = append(events, lib.JM(`{"e":"日本 & <t>"}`), lib.JM(`{"e":{"deep":["x"]}}`))
+		queries = append(queries, lib.JM(`{"or":[{"pattern":{"k":"?x"}},{"pattern":{"n":{"m":"?x"}}}]}`), lib.JM(`{"not":{"pattern":{"zz":"?x"}}}`))
+	}
 	var out []c18req
 	for _, l := range c18Locs {
 		for _, id := range ids {
@@ -617,11 +624,11 @@ func c18Run(w *lib.Worker, c c18case) {
 	w.AddTraces(1)
 }
 
-func c18Cases() []c18case {
+func c18Cases(tier string) []c18case {
 	var out []c18case
 	for _, kind := range []string{"indexed", "linear"} {
 		for _, h := range []string{"populated", "empty"} {
-			for _, r := range c18Requests() {
+			for _, r := range c18Requests(tier) {
 				if h == "empty" && (r.Bad != "" || r.loc() != "L") {
 					continue
 				}
@@ -652,7 +659,7 @@ func init() {
 		},
 		Run: func(w *lib.Worker) {
 			lib.Clock()
-			for i, c := range c18Cases() {
+			for i, c := range c18Cases(w.Tier) {
 				if i%w.NShards != w.Shard {
 					continue
 				}
@@ -673,7 +680,7 @@ func init() {
 			var rp struct{ Kind, History, Req string }
 			json.Unmarshal(raw, &rp)
 			lib.Clock()
-			for _, c := range c18Cases() {
+			for _, c := range c18Cases("thorough") {
 				if c.Kind == rp.Kind && c.History == rp.History && c.Req.String() == rp.Req {
 					c18Run(w, c)
 				}
